@@ -257,10 +257,14 @@ def run(ctx):
                         changed = True
                         break
     nloops = 0
+    nsites = 0
     for f in list(ikesa_cls.methods.values()) + list(prog.cls('ikesacontroller.IkeSaController').methods.values()):
         if not isinstance(f.node, ast.FunctionDef):
             continue
         sv = ctx.sval(f)
+        # every place that walks the CHILD_SAs (the list, a copy of it, a comprehension over it): the population the rule looks at
+        nsites += sum(1 for y in walk_no_nested(f.node) if isinstance(y, (ast.For, ast.comprehension))
+                      and any(isinstance(z, ast.Attribute) and z.attr == 'child_sas' for z in ast.walk(y.iter)))
         for lp in [y for y in walk_no_nested(f.node) if isinstance(y, ast.For)]:
             t = sv.terms.get(id(lp.iter))
             if t is None or not (t[0] == 'attr' and t[2] == 'child_sas'):
@@ -280,7 +284,8 @@ def run(ctx):
             ctx.check(bad is None, 'P5', '%s: the loop over `%s` does not change that list while walking it' % (f.name, src(lp.iter)),
                       key=('P5', f.qual, 'mutates-while-iterating', src(lp.iter)), site=ctx.site(f, bad if bad is not None else lp),
                       detail={'mutating call': src(bad)[:80] if bad is not None else None})
-    ctx.floor('P5 loops over a tracked child_sas list', nloops, 2)
+    ctx.stats['P5 loops over the tracked list itself'] = nloops
+    ctx.floor('P5 places that walk the CHILD_SAs of an IKE_SA', nsites, 3)
 
     # ---------------------------------------------------------------- P6
     ctrl_init = ctx.func('ikesacontroller.IkeSaController.__init__')
